@@ -1,6 +1,7 @@
 import Driver.Core
 import RrModel.Spec.C06
-/- streams: recomp, recomphdr, codeclaw, kf.C06-a … kf.C06-d  (C06) -/
+/- streams: recomp, recomphdr, codeclaw, kf.C06-a … kf.C06-d  (C06); kf.C06-a is the regression
+   stream of the repaired finding C06-a (no class label any more: a failure there is a violation) -/
 open Go Model Proto
 open Model.Recompress
 
